@@ -6,6 +6,7 @@ import (
 	"fmt"
 	"strings"
 	"sync"
+	"sync/atomic"
 	"time"
 
 	"github.com/ipfs/go-datastore"
@@ -312,6 +313,9 @@ type c03CallSpec struct {
 type c03Step struct {
 	Kind  string        `json:"kind"` // call | burst | restart | crash
 	Calls []c03CallSpec `json:"calls,omitempty"`
+	// ReadFault (restart only): the first read of a stored sampling result by the new instance fails
+	// once with an I/O error (a transient datastore fault)
+	ReadFault bool `json:"read_fault,omitempty"`
 }
 
 type c03Hist struct {
@@ -438,6 +442,12 @@ func c03GenHist(r *vkit.RNG, id int, probe bool) *c03Hist {
 			h.Steps = append(h.Steps, c03Step{Kind: "crash"})
 		}
 	}
+	rf := r.Split("dsfault")
+	for i := range h.Steps {
+		if h.Steps[i].Kind == "restart" && rf.Chance(1, 3) {
+			h.Steps[i].ReadFault = true
+		}
+	}
 	// after a restart there is always another call, so that the restart is observable
 	if k := h.Steps[len(h.Steps)-1].Kind; k == "restart" || k == "crash" {
 		h.Steps = append(h.Steps, c03Step{Kind: "call", Calls: []c03CallSpec{{H: r.Intn(nH)}}})
@@ -477,11 +487,37 @@ type c03Exec struct {
 	c     *c03
 	h     *c03Hist
 	mon   *c03Mon
-	base  datastore.Batching
+	base  *c03FaultDS
 	rec   *c03RecGetter
 	inst  *light.ShareAvailability
 	roots []*c03Root
 	dead  bool
+}
+
+// c03FaultDS fails the next `armed` reads of stored sampling results with an I/O error.
+type c03FaultDS struct {
+	datastore.Batching
+	armed atomic.Int32
+	run   *vkit.Run
+	mode  string
+}
+
+var errC03DS = errors.New("c03: injected datastore read error (input/output error)")
+
+func (d *c03FaultDS) Get(ctx context.Context, key datastore.Key) ([]byte, error) {
+	if strings.Contains(key.String(), "sampling_result") {
+		for {
+			n := d.armed.Load()
+			if n <= 0 {
+				break
+			}
+			if d.armed.CompareAndSwap(n, n-1) {
+				d.run.Count(d.mode+"/dsfault/reads_failed", 1)
+				return nil, errC03DS
+			}
+		}
+	}
+	return d.Batching.Get(ctx, key)
 }
 
 func (e *c03Exec) newInst() {
@@ -512,7 +548,7 @@ func (c *c03) runHistory(h *c03Hist, pool *c03Pool) {
 	run := c.run
 	mon := c.newMon(mode, "scripted", h)
 	sg := &c03Scripted{c: c, hs: map[uint64]*c03Height{}}
-	e := &c03Exec{c: c, h: h, mon: mon, base: dssync.MutexWrap(datastore.NewMapDatastore()), rec: &c03RecGetter{Getter: sg, mon: mon}}
+	e := &c03Exec{c: c, h: h, mon: mon, base: &c03FaultDS{Batching: dssync.MutexWrap(datastore.NewMapDatastore()), run: c.run, mode: mode}, rec: &c03RecGetter{Getter: sg, mon: mon}}
 	now := time.Now()
 	for i, hs := range h.Heights {
 		s := pool.byW[hs.W][hs.Pool]
@@ -556,8 +592,12 @@ func (c *c03) runHistory(h *c03Hist, pool *c03Pool) {
 				break
 			}
 			mon.restart("graceful-restart")
-			mon.checkPersisted(e.base)
+			mon.checkPersisted(e.base.Batching)
 			e.newInst()
+			if st.ReadFault {
+				e.base.armed.Store(1)
+				mon.note("-- next read of a stored sampling result fails once (injected datastore fault) --")
+			}
 		case "crash":
 			mon.restart("crash-restart")
 			e.newInst()
